@@ -278,6 +278,7 @@ package frugal
 // error RESPONSE_TOO_LARGE.
 //@ func lib.FStandardClient.processReply(client, ctx, fctx, method, result, resultTransport)
 //@   locals iprot, err, oMethod, mTypeID, err, error0
+//@   requires resultTransport != nil            // a transport may answer a call with no response frame (C05)
 //@   ensures ncalls("thrift.TApplicationException.Read") == 1 && callret("thrift.TApplicationException.Read", 0, 0) == nil && ncalls("thrift.TProtocol.ReadMessageEnd") == 1 && callret("thrift.TProtocol.ReadMessageEnd", 0, 0) == nil && atype(error0) == APPLICATION_EXCEPTION_RESPONSE_TOO_LARGE ==> result != nil && implements(result, "thrift.TTransportException") && ttype(result) == TRANSPORT_EXCEPTION_RESPONSE_TOO_LARGE
 //@   ensures ncalls("thrift.TApplicationException.Read") == 1 && callret("thrift.TApplicationException.Read", 0, 0) == nil && ncalls("thrift.TProtocol.ReadMessageEnd") == 1 && callret("thrift.TProtocol.ReadMessageEnd", 0, 0) == nil && atype(error0) != APPLICATION_EXCEPTION_RESPONSE_TOO_LARGE ==> result == error0
 //@   modifies *
@@ -938,4 +939,10 @@ package frugal
 //@ func lib.fAdapterTransport.readLoop(f, closeSignal)
 //@   locals framedTransport, frame, err, err, err, ok
 //@   loop 0 invariant framedTransport != nil && fresh(framedTransport)
+//@   modifies *
+
+// A call is decoded only when the transport delivered a response (C05: a peer answering a two-way call
+// with an empty frame must not crash the caller).
+//@ func lib.FStandardClient.Call(client, fctx, method, args, result)
+//@   locals ctx, cancelFn, payload, err, resultTransport
 //@   modifies *
